@@ -75,7 +75,7 @@ theorem loadFile_boundary (cfg : Nat) (now : Int) (buf0 : Bytes) (pre : List Rec
 
 /-- Cut inside the 12-byte header (1–11 bytes left): start-up error. -/
 theorem loadFile_header_cut (cfg : Nat) (now : Int) (buf0 f : Bytes) (dat : Option Bytes) (h0 : 0 < f.length) (h12 : f.length < 12) :
-    (loadFile cfg now buf0 ⟨f, dat⟩).2.1 = Stop.err := by
+    loadFile cfg now buf0 ⟨f, dat⟩ = ([], Stop.err, buf0) := by
   unfold loadFile
   simp [readHeader_short _ f h0 h12]
 
